@@ -56,7 +56,8 @@ func checkC08(ctx *Ctx, r *Report, tier string) {
 		degenerateGuard(ctx, r, cf, "U4", "Line2")
 	}
 	r.expectControl("U4", "verifCtlMsKernelNoDegenerate")
-	r.floor("U4", 1)
+	degenerateTest(ctx, r, "U4", "Line2", 2)
+	r.floor("U4", 2)
 	kf, err := analyseKernel(ctx, kfn, 2, "msInterpolate")
 	if err != nil {
 		r.undecided("U5", "msToLines", kfn.Pos(), "kernel shape not recognised: "+err.Error())
